@@ -128,7 +128,7 @@ def run_within(wi, d, p, allow_known_off=False):
         # Known finding KF-C19-3: a single segment answers through a plain Levenshtein automaton (an adjacent
         # transposition costs 2), a multi-segment reader through the documented Damerau-Levenshtein distance.
         dist = ref_lev if (nseg == 1 and not allow_known_off) else ref_distance
-        want = sorted(w for w in LEXICON if dist(word, w) <= d and w[:p] == word[:p])
+        want = sorted(w for w in LEXICON if dist(word, w) <= d and w.startswith(word[:p]))
         where = "word %r maxdist %d prefix %d on %d segment(s)" % (word, d, p, nseg)
         try:
             got = sorted(set(s.reader().terms_within("f", word, d, prefix=p)))
@@ -145,7 +145,7 @@ def run_within(wi, d, p, allow_known_off=False):
                 return "FuzzyTerm %s raised %s: %s" % (where, type(e).__name__, e)
             # (FuzzyTerm expands per segment through the Levenshtein automaton on every layout: KF-C19-3)
             fdist = ref_distance if allow_known_off else ref_lev
-            fwant = [w for w in LEXICON if fdist(word, w) <= d and w[:p] == word[:p]]
+            fwant = [w for w in LEXICON if fdist(word, w) <= d and w.startswith(word[:p])]
             wd = sorted(k for k, text in docs.items() if text.split()[0] in fwant)
             if hits != wd:
                 return "FuzzyTerm %s matches %r, documents containing a term within distance: %r" % (where, hits, wd)
